@@ -7,6 +7,8 @@ import (
 	"testing"
 	"time"
 
+	"github.com/bianjieai/tibc-go/modules/tibc/testing/mock"
+
 	"verif/mon"
 	"verif/props"
 	"verif/world"
@@ -34,6 +36,13 @@ func pktHistories(rec *mon.Recorder, n int, tune func(i int, c *world.PktCfg), m
 	})
 }
 
+// longPair turns a history into two chains exchanging many mock packets, so that sequences on one pair pass 10
+// and 20 while cleans still sit at one-digit numbers (sequence keys are decimal strings: 1 < 10 < 2).
+func longPair(c *world.PktCfg) {
+	c.NChains, c.FullMesh, c.Tokens = 2, true, false
+	c.Steps, c.PSend, c.PRelay, c.PClean, c.PAdv, c.PFailSend = 320, 0.3, 0.44, 0.13, 0.08, 0.02
+}
+
 func TestC01(t *testing.T) {
 	rec := mon.New("C01", "exploration", pktRule)
 	rec.Require("recv-accepted", "recv-rejected", "recv-accepted-mutated")
@@ -54,6 +63,9 @@ func TestC02(t *testing.T) {
 		c.PAdv, c.PClean = 0.22, 0.14
 		if i%2 == 1 { // every other history is clean-heavy: replays around and below clean points
 			c.PClean, c.PRelay, c.PAdv, c.Steps = 0.25, 0.4, 0.12, 160
+		}
+		if i%6 == 5 {
+			longPair(c)
 		}
 	},
 		func() []world.Monitor { return []world.Monitor{&props.C02{R: rec}} })
@@ -79,9 +91,45 @@ func TestC02(t *testing.T) {
 	setExit(rec.Finish())
 }
 
+// emptyAckScenario delivers packets to an application that answers with an empty acknowledgement ([]byte{} and
+// nil): nothing may be recorded for them. It runs alone because the mock application's answer is a package variable.
+func emptyAckScenario(rec *mon.Recorder) {
+	saved := mock.MockAcknowledgement
+	defer func() { mock.MockAcknowledgement = saved }()
+	for vi, v := range [][]byte{{}, nil} {
+		rng := rand.New(rand.NewSource(mon.Seed()*31 + int64(vi)))
+		cfg := world.DefaultPktCfg()
+		cfg.NChains, cfg.FullMesh, cfg.Tokens, cfg.PRules = 2, true, false, 0
+		net := world.NewPktNetwork(mon.Seed()*104729+int64(vi), rng, cfg)
+		w := world.New(fmt.Sprintf("empty-ack-%d", vi), net, rng)
+		w.Monitors = []world.Monitor{&props.C03{R: rec}}
+		sim := world.NewPktSim(w, cfg, rng)
+		for j := 0; j < 3; j++ {
+			sim.Send()
+		}
+		mock.MockAcknowledgement = v
+		for j := 0; j < 4 && !w.Stop; j++ {
+			en := w.EnabledRelays()
+			if len(en) == 0 {
+				break
+			}
+			if a := w.Relay(en[rng.Intn(len(en))]); a != nil && a.Kind == "recv" {
+				rec.Judge("empty-ack-delivery", a.Res.OK(), v == nil)
+				if !a.Res.OK() {
+					rec.Count("empty-ack-deliveries-refused", 1)
+				}
+			}
+		}
+		mock.MockAcknowledgement = saved
+		for j := 0; j < 20 && !w.Stop && sim.RelayOne(); j++ {
+		}
+	}
+}
+
 func TestC03(t *testing.T) {
 	rec := mon.New("C03", "exploration", pktRule)
-	rec.Require("ack-accepted", "ack-rejected", "recorded-ack-checked", "ack-callbacks")
+	rec.Require("ack-accepted", "ack-rejected", "recorded-ack-checked", "ack-callbacks", "empty-ack-deliveries-refused")
+	emptyAckScenario(rec)
 	pktHistories(rec, mon.Scale(48, 1600), func(i int, c *world.PktCfg) { c.PAdv, c.PRelay = 0.25, 0.4 },
 		func() []world.Monitor { return []world.Monitor{&props.C03{R: rec}} })
 	setExit(rec.Finish())
@@ -93,7 +141,7 @@ func TestC09(t *testing.T) {
 	pktHistories(rec, mon.Scale(48, 1600), func(i int, c *world.PktCfg) { c.PSend, c.PFailSend, c.PAdv = 0.4, 0.15, 0.08 },
 		func() []world.Monitor { return []world.Monitor{&props.C09{R: rec}} })
 	// the token workload as well: returns of vouchers, partial amounts, sends of more than owned, relayed routes
-	tokHistories(rec, mon.Scale(24, 800), func(i int, c *world.TokCfg) { c.Hostile = 0 },
+	tokHistories(rec, mon.Scale(24, 800), func(i int, c *world.TokCfg) { c.Hostile, c.MissingClients = 0, i%3 },
 		func() []world.Monitor { return []world.Monitor{&props.C09{R: rec}} })
 	setExit(rec.Finish())
 }
@@ -103,6 +151,9 @@ func TestC10(t *testing.T) {
 	rec.Require("clean-accepted", "clean-rejected", "recvclean-accepted", "recvclean-rejected", "msgs-at-or-below-clean-point")
 	pktHistories(rec, mon.Scale(48, 1600), func(i int, c *world.PktCfg) {
 		c.PClean, c.PRelay, c.PAdv, c.Steps = 0.25, 0.4, 0.12, 160
+		if i%6 == 5 {
+			longPair(c)
+		}
 	}, func() []world.Monitor { return []world.Monitor{&props.C10{R: rec}} })
 	setExit(rec.Finish())
 }
